@@ -1,0 +1,356 @@
+//go:build verif
+
+// Contracts for the fvc verification-condition generator in /verif (comment-only file).
+// C06: with Config.Immutable every string / byte slice a handler obtains from the context keeps its
+// content after the handler returns, however often the context and the connection buffers are reused.
+
+package fiber
+
+//@ props C06
+
+// ---------------------------------------------------------------------------------------------
+// Vocabulary
+// ---------------------------------------------------------------------------------------------
+// stable(s): the bytes of s do not live in storage that a later request overwrites (request/response
+// buffers of fasthttp, c.path, c.detectionPath). Only POSITIVE facts are ever assumed about it:
+//   * the empty string and the constants the accessors return ("http", "https") are stable;
+//   * the result of the copying variant of app.getString (clause copying-variant of App.getString);
+//   * a substring of a stable string is stable (it shares the storage of its parent) - axiom below.
+// utils.UnsafeString, fasthttp Peek/Cookie/FormValue/Host/RequestURI/Protocol/... give NO fact, so a value
+// that reaches a return statement without passing through a copying conversion cannot be shown stable.
+// (Strings are values in the verifier: two strings with equal content are indistinguishable, so a value is also
+// accepted when a copy with the same content was provably made in the same activation.)
+//@ fn stable(s string) bool
+//@ axiom stable-constants: stable("") && stable("http") && stable("https")
+//@ axiom stable-substring: forallS(s, forallI(a, forallI(b, stable(s) && 0 <= a && a <= b && b <= len(s) ==> stable(s[a:b]))))
+
+// For byte slices the verifier has identity: a result is safe when its array was allocated by this call
+// (it cannot be one of the buffers that existed before, which are the ones that get recycled).
+//@ macro freshBytes(b) = !old(allocated(arr(b)))
+
+// copies(f): the function value f is a copying conversion. New() installs getStringImmutable /
+// getBytesImmutable in app.getString / app.getBytes iff Config.Immutable: that is the well-formedness fact
+// every accessor relies on (wfImmutable).
+//@ fn copies(f ref) bool
+//@ macro wfImmutable(c) = c.app.config.Immutable ==> copies(c.app.getString)
+//@ macro orDefault(r, d) = len(d) > 0 && r == d[0]
+
+// The two conversions that New() installs when Config.Immutable is set.
+//@ func getStringImmutable
+//@   pure
+//@   ensures same-content: result == str(b)
+//@ func getBytesImmutable
+//@   ensures same-content: str(result) == s
+//@   ensures new-array: freshBytes(result)
+
+// app.getBytes (function-typed field): content-preserving; the Immutable variant returns a new array.
+//@ func App.getBytes assumed pure allocates
+//@   ensures str(result) == arg0
+//@   ensures [C06] copying-variant: copies(fnvalue) ==> freshBytes(result)
+
+// ---------------------------------------------------------------------------------------------
+// Accessors that return one string
+// ---------------------------------------------------------------------------------------------
+
+//@ func (*DefaultCtx).OriginalURL
+//@   props C06 C07
+//@   pure
+//@   requires wf-immutable: wfImmutable(c)
+//@   ensures [C06] immutable-stable: c.app.config.Immutable ==> stable(result)
+
+// KNOWN DEFECT (immutable-stable fails): returns utils.UnsafeString(...) - /verif/replay/known/c06_protocol_test.go,
+// candidate repair /verif/fixes/c06_protocol.diff.
+//@ func (*DefaultCtx).Protocol
+//@   props C06 C07
+//@   pure
+//@   requires wf-immutable: wfImmutable(c)
+//@   ensures [C06] immutable-stable: c.app.config.Immutable ==> stable(result)
+
+//@ func (*DefaultCtx).Cookies
+//@   props C06 C07 C12
+//@   pure
+//@   requires wf-immutable: wfImmutable(c)
+//@   ensures [C06] immutable-stable: c.app.config.Immutable ==> stable(result) || orDefault(result, defaultValue)
+//@   ensures [C12] from-request: len(defaultValue) == 0 ==> result == hdrCookie(c.fasthttp.Request.Header, key, epoch)
+
+//@ func (*DefaultCtx).FormValue
+//@   props C06 C07
+//@   pure
+//@   requires wf-immutable: wfImmutable(c)
+//@   ensures [C06] immutable-stable: c.app.config.Immutable ==> stable(result) || orDefault(result, defaultValue)
+
+//@ func (*DefaultCtx).GetRespHeader
+//@   props C06 C07
+//@   pure
+//@   requires wf-immutable: wfImmutable(c)
+//@   ensures [C06] immutable-stable: c.app.config.Immutable ==> stable(result) || orDefault(result, defaultValue)
+
+//@ func (*DefaultCtx).getDetectionPath
+//@   props C06 C07
+//@   pure
+//@   requires wf-immutable: wfImmutable(c)
+//@   ensures [C06] immutable-stable: c.app.config.Immutable ==> stable(result)
+
+// c.pathOriginal is set by Reset through app.getString (and by Path(override) / SendFile from caller strings).
+//@ func (*DefaultCtx).getPathOriginal
+//@   props C06 C07
+//@   pure
+//@   requires path-original-wf: c.app.config.Immutable ==> stable(c.pathOriginal)
+//@   ensures [C06] immutable-stable: c.app.config.Immutable ==> stable(result)
+
+// Path(): the path of the request; Path(p): p becomes the path (the caller's string is kept in c.pathOriginal).
+// (ctxWF: structural invariant of a DefaultCtx, declared in zz_contracts_c05_verif.go; configDependentPaths needs it.)
+//@ func (*DefaultCtx).Path
+//@   props C06 C07
+//@   requires wf-immutable: wfImmutable(c)
+//@   requires ctx-wf: ctxWF(c)
+//@   ensures [C06] immutable-stable: old(c.app.config.Immutable) ==> stable(result)
+//@   ensures [C06] path-original-wf-kept: old(c.app.config.Immutable) && old(stable(c.pathOriginal)) && (len(override) == 0 || old(stable(override[0]))) ==> stable(c.pathOriginal)
+
+// Route(): the matched route (its strings belong to the app, not to the request) or, when nothing matched
+// yet, a new Route whose Path is the request's original path.
+//@ func (*DefaultCtx).Route
+//@   props C06 C07 C05
+//@   requires path-original-wf: c.app.config.Immutable ==> stable(c.pathOriginal)
+//@   modifies c.methodInt
+//@   ensures matched-route: old(c.route) != nil ==> result == old(c.route)
+//@   ensures fallback-route: old(c.route) == nil ==> result != nil && len(result.Params) == 0 && !old(allocated(result))
+//@   ensures [C06] immutable-stable-path: old(c.app.config.Immutable) ==> old(c.route) != nil || stable(result.Path)
+//@   ensures [C05] fallback-from-this-request: old(c.route) == nil ==> result.Path == c.pathOriginal && result.path == c.pathOriginal
+
+// Params: the value captured for a route parameter (or the default).
+// KNOWN DEFECT (immutable-stable fails): returns c.values[i], which (*App).next fills with substrings of
+// utils.UnsafeString(c.path) - /verif/replay/known/c06_params_test.go, candidate repair /verif/fixes/c06_params.diff.
+//@ func (*DefaultCtx).Params
+//@   props C06 C07 C05
+//@   requires wf-immutable: wfImmutable(c)
+//@   requires path-original-wf: c.app.config.Immutable ==> stable(c.pathOriginal)
+//@   loop 1
+//@     invariant route-is-matched-route: (c.route != nil && route == c.route) || len(route.Params) == 0
+//@   ensures [C06] immutable-stable: old(c.app.config.Immutable) ==> stable(result) || orDefault(result, defaultValue)
+//@   ensures [C05] value-of-this-match: result == "" || orDefault(result, defaultValue) || (old(c.route) != nil && exists(i, 0, len(old(c.route).Params), result == c.values[i] && len(c.values[i]) > 0))
+
+// ---------------------------------------------------------------------------------------------
+// Accessors that return several strings
+// ---------------------------------------------------------------------------------------------
+
+// Subdomains: parts of Host() (strings.Split shares the storage of its argument).
+//@ func (*DefaultCtx).Subdomains
+//@   props C06 C07
+//@   requires wf-immutable: wfImmutable(c)
+//@   requires [C07] offset-in-domain: len(offset) > 0 ==> offset[0] >= 0
+//@   ensures [C06] immutable-stable: old(c.app.config.Immutable) ==> forall(k, 0, len(result), stable(result[k]))
+
+// IPs / extractIPsFromHeader: trimmed pieces of the X-Forwarded-For value.
+//@ func (*DefaultCtx).extractIPsFromHeader
+//@   props C06 C07
+//@   requires wf-immutable: wfImmutable(c)
+//@   allocbound [C07] estimated-count-capped: 8
+//@   loop 1
+//@     invariant j-ge-minus-one: j >= -1
+//@     invariant [C06] found-stable: old(c.app.config.Immutable) ==> forall(k, 0, len(ipsFound), stable(ipsFound[k]))
+//@     decreases len(headerValue) + 1 - j
+//@   loop 2
+//@     invariant j-in-range: 1 <= j && j <= len(headerValue)
+//@     decreases len(headerValue) - j
+//@   loop 3
+//@     invariant i-le-j: 0 <= i && i <= j
+//@     decreases j - i
+//@   ensures [C06] immutable-stable: old(c.app.config.Immutable) ==> forall(k, 0, len(result), stable(result[k]))
+
+//@ func (*DefaultCtx).IPs
+//@   props C06 C07
+//@   requires wf-immutable: wfImmutable(c)
+//@   ensures [C06] immutable-stable: old(c.app.config.Immutable) ==> forall(k, 0, len(result), stable(result[k]))
+
+// ---------------------------------------------------------------------------------------------
+// Scheme / Host / Hostname / IP / extractIPFromHeader / Get have their contracts in zz_contracts_verif.go (C10 block);
+// their C06 clauses (`ensures [C06] immutable-stable: ...`) live there. What they need from here:
+// ---------------------------------------------------------------------------------------------
+
+// axiom: net.IP.String() formats into a new string.
+//@ smt (assert (forall ((x Slc)) (! (stable (ipString x)) :pattern ((ipString x)))))
+// (BaseURL returns scheme + "://" + host, C10 clause scheme-host: a Go concatenation with a non-empty constant is
+// always a new string. That is NOT stated as a fact about stable(): with strings as values every string is such a
+// concatenation of something, and together with stable-substring the predicate would become trivially true.)
+
+// The header visitor of Scheme(): whatever it assigns to the captured result variable is a constant or went
+// through app.getString.
+//@ func (*DefaultCtx).Scheme$1
+//@   props C06
+//@   preserves scheme-stable: c.app.config.Immutable && copies(c.app.getString) ==> stable(scheme)
+
+// ---------------------------------------------------------------------------------------------
+// Body
+// ---------------------------------------------------------------------------------------------
+
+// Request() / Response(): the fasthttp request / response embedded in the request context (no effect).
+//@ func (*DefaultCtx).Request
+//@   props C06 C07
+//@   pure
+//@   ensures result == c.fasthttp.Request
+//@ func (*DefaultCtx).Response
+//@   props C06 C07
+//@   pure
+//@   ensures result == c.fasthttp.Response
+
+//@ func (*DefaultCtx).getBody
+//@   props C06 C07
+//@   pure
+//@   ensures [C06] immutable-new-array: c.app.config.Immutable ==> freshBytes(result)
+
+//@ func (*DefaultCtx).BodyRaw
+//@   props C06 C07
+//@   pure
+//@   ensures [C06] immutable-new-array: c.app.config.Immutable ==> freshBytes(result)
+
+// Body: the (decoded) request body. With Immutable the result never shares an array with anything that
+// existed before the call (request buffer, fasthttp's decode buffers). Without Immutable the value must stay
+// correct until the handler returns: when decoding replaced the request's raw body, what Body puts back is
+// the saved original (restores-saved-original).
+//@ func (*DefaultCtx).Body
+//@   props C06 C07
+//@   ensures [C06] immutable-new-array: old(c.app.config.Immutable) ==> freshBytes(result)
+//@   atcall @fasthttp.(*Request).SetBodyRaw: restores-saved-original: arg1 == originalBody && originalBody != nil
+
+// ---------------------------------------------------------------------------------------------
+// Accessors that return maps: every key and every value is stable
+// ---------------------------------------------------------------------------------------------
+
+// the visitor of Queries(): both the key and the value it stores went through app.getString
+//@ func (*DefaultCtx).Queries$1
+//@   props C06 C07
+//@   preserves [C06] entries-stable: c.app.config.Immutable && copies(c.app.getString) ==> forallS(k, indom(m, k) ==> stable(k) && stable(m[k]))
+
+//@ func (*DefaultCtx).Queries
+//@   props C06 C07
+//@   requires wf-immutable: wfImmutable(c)
+//@   ensures [C06] immutable-stable: old(c.app.config.Immutable) ==> forallS(k, indom(result, k) ==> stable(k) && stable(result[k]))
+
+// the visitors of GetReqHeaders() / GetRespHeaders(): key and appended value went through app.getString
+//@ func (*DefaultCtx).GetReqHeaders$1
+//@   props C06 C07
+//@   preserves [C06] keys-stable: c.app.config.Immutable && copies(c.app.getString) ==> forallS(k, indom(headers, k) ==> stable(k))
+//@   preserves value-arrays-distinct: forallS(k, indom(headers, k) ==> allocated(arr(headers[k])) || arr(headers[k]) == nil) &&
+//@ ..   forallS(k1, forallS(k2, indom(headers, k1) && indom(headers, k2) && k1 != k2 && arr(headers[k1]) != nil ==> arr(headers[k1]) != arr(headers[k2])))
+//@   preserves [C06] values-stable: c.app.config.Immutable && copies(c.app.getString) ==> forallS(k, indom(headers, k) ==> forall(i, 0, len(headers[k]), stable(headers[k][i])))
+
+//@ func (*DefaultCtx).GetReqHeaders
+//@   props C06 C07
+//@   requires wf-immutable: wfImmutable(c)
+//@   ensures [C06] immutable-stable: old(c.app.config.Immutable) ==> forallS(k, indom(result, k) ==> stable(k) && forall(i, 0, len(result[k]), stable(result[k][i])))
+
+//@ func (*DefaultCtx).GetRespHeaders$1
+//@   props C06 C07
+//@   preserves [C06] keys-stable: c.app.config.Immutable && copies(c.app.getString) ==> forallS(k, indom(headers, k) ==> stable(k))
+//@   preserves value-arrays-distinct: forallS(k, indom(headers, k) ==> allocated(arr(headers[k])) || arr(headers[k]) == nil) &&
+//@ ..   forallS(k1, forallS(k2, indom(headers, k1) && indom(headers, k2) && k1 != k2 && arr(headers[k1]) != nil ==> arr(headers[k1]) != arr(headers[k2])))
+//@   preserves [C06] values-stable: c.app.config.Immutable && copies(c.app.getString) ==> forallS(k, indom(headers, k) ==> forall(i, 0, len(headers[k]), stable(headers[k][i])))
+
+//@ func (*DefaultCtx).GetRespHeaders
+//@   props C06 C07
+//@   requires wf-immutable: wfImmutable(c)
+//@   ensures [C06] immutable-stable: old(c.app.config.Immutable) ==> forallS(k, indom(result, k) ==> stable(k) && forall(i, 0, len(result[k]), stable(result[k][i])))
+
+// ---------------------------------------------------------------------------------------------
+// Get / Query go through the generic helpers GetReqHeader[V] / Query[V] and genericParseType[V] (type switch
+// over the type parameter: outside the verifier's subset). Checked here: the string handed to
+// genericParseType is the result of app.getString (not of an unsafe conversion).
+// ---------------------------------------------------------------------------------------------
+//@ func GetReqHeader
+//@   props C06
+//@   atcall genericParseType: value-via-getString: str == "" || (called(App.getString) && str == last(App.getString))
+
+// Query(key): Query[string] (assumed contract of the generic function in /verif/contracts/deps/mw_C15.spec).
+//@ func (*DefaultCtx).Query
+//@   props C06 C07
+//@   pure
+//@   requires wf-immutable: wfImmutable(c)
+//@   ensures [C06] immutable-stable: c.app.config.Immutable ==> stable(result) || orDefault(result, defaultValue)
+
+// ---------------------------------------------------------------------------------------------
+// New() establishes the well-formedness fact: Immutable => the two conversions are the copying variants
+// ---------------------------------------------------------------------------------------------
+// string(b) / []byte(s) copy (Go semantics; getBytesImmutable's new array is proved above).
+//@ axiom copying-variants: copies(getStringImmutable) && copies(getBytesImmutable)
+
+//@ func New
+//@   props C06
+//@   loop 1
+//@     invariant conversions-installed: app.config.Immutable ==> copies(app.getString) && copies(app.getBytes)
+//@   ensures immutable-installs-copying-conversions: result.config.Immutable ==> copies(result.getString) && copies(result.getBytes)
+
+// the last two steps of New() do not touch the conversions or the Immutable flag
+//@ func defaultColors
+//@   props C06
+//@   pure
+//@ func (*App).init
+//@   props C06 C07
+//@   requires mutex-free: !held(app.mutex)
+//@   modifies heap
+//@   ensures [C06] keeps-conversions: app.getString == old(app.getString) && app.getBytes == old(app.getBytes) && app.config.Immutable == old(app.config.Immutable) && result == app
+//@   ensures [C07] limits-reach-the-server: app.server != nil && app.server.MaxRequestBodySize == app.config.BodyLimit && app.server.ReadBufferSize == app.config.ReadBufferSize &&
+//@ ..    app.server.ReadTimeout == app.config.ReadTimeout && app.server.IdleTimeout == app.config.IdleTimeout && app.server.Concurrency == app.config.Concurrency &&
+//@ ..    app.server.StreamRequestBody == app.config.StreamRequestBody && app.server.GetOnly == app.config.GETOnly
+//@   ensures [C07] unlocked-again: !held(app.mutex)
+// Views.Load (template engine, user supplied): assumed not to write fiber's App / Config objects.
+//@ func Views.Load(recv) assumed pure
+
+// ---------------------------------------------------------------------------------------------
+// The Req view (c.Req().X()): req.go forwards to the context accessors; same guarantees.
+// ---------------------------------------------------------------------------------------------
+//@ macro wfImmutableReq(r) = r.ctx.app.config.Immutable ==> copies(r.ctx.app.getString)
+//@ func (*DefaultReq).OriginalURL
+//@   props C06
+//@   requires wf-immutable: wfImmutableReq(r)
+//@   ensures immutable-stable: old(r.ctx.app.config.Immutable) ==> stable(result)
+//@ func (*DefaultReq).Protocol
+//@   props C06
+//@   requires wf-immutable: wfImmutableReq(r)
+//@   ensures immutable-stable: old(r.ctx.app.config.Immutable) ==> stable(result)
+//@ func (*DefaultReq).Host
+//@   props C06
+//@   requires wf-immutable: wfImmutableReq(r)
+//@   ensures immutable-stable: old(r.ctx.app.config.Immutable) ==> stable(result)
+//@ func (*DefaultReq).Cookies
+//@   props C06
+//@   requires wf-immutable: wfImmutableReq(r)
+//@   ensures immutable-stable: old(r.ctx.app.config.Immutable) ==> stable(result) || orDefault(result, defaultValue)
+//@ func (*DefaultReq).FormValue
+//@   props C06
+//@   requires wf-immutable: wfImmutableReq(r)
+//@   ensures immutable-stable: old(r.ctx.app.config.Immutable) ==> stable(result) || orDefault(result, defaultValue)
+//@ func (*DefaultReq).Get
+//@   props C06
+//@   requires wf-immutable: wfImmutableReq(r)
+//@   ensures immutable-stable: old(r.ctx.app.config.Immutable) ==> stable(result) || orDefault(result, defaultValue)
+//@ func (*DefaultReq).Query
+//@   props C06
+//@   requires wf-immutable: wfImmutableReq(r)
+//@   ensures immutable-stable: old(r.ctx.app.config.Immutable) ==> stable(result) || orDefault(result, defaultValue)
+//@ func (*DefaultReq).Params
+//@   props C06
+//@   requires wf-immutable: wfImmutableReq(r)
+//@   requires path-original-wf: r.ctx.app.config.Immutable ==> stable(r.ctx.pathOriginal)
+//@   ensures immutable-stable: old(r.ctx.app.config.Immutable) ==> stable(result) || orDefault(result, defaultValue)
+//@ func (*DefaultReq).IPs
+//@   props C06
+//@   requires wf-immutable: wfImmutableReq(r)
+//@   ensures immutable-stable: old(r.ctx.app.config.Immutable) ==> forall(k, 0, len(result), stable(result[k]))
+//@ func (*DefaultReq).Subdomains
+//@   props C06
+//@   requires wf-immutable: wfImmutableReq(r)
+//@   requires offset-in-domain: len(offset) > 0 ==> offset[0] >= 0
+//@   ensures immutable-stable: old(r.ctx.app.config.Immutable) ==> forall(k, 0, len(result), stable(result[k]))
+//@ func (*DefaultReq).Queries
+//@   props C06
+//@   requires wf-immutable: wfImmutableReq(r)
+//@   ensures immutable-stable: old(r.ctx.app.config.Immutable) ==> forallS(k, indom(result, k) ==> stable(k) && stable(result[k]))
+//@ func (*DefaultReq).Body
+//@   props C06
+//@   requires wf-immutable: wfImmutableReq(r)
+//@   ensures immutable-stable: old(r.ctx.app.config.Immutable) ==> freshBytes(result)
+//@ func (*DefaultReq).BodyRaw
+//@   props C06
+//@   requires wf-immutable: wfImmutableReq(r)
+//@   ensures immutable-stable: old(r.ctx.app.config.Immutable) ==> freshBytes(result)
